@@ -29,6 +29,20 @@ func init() {
 		"vNondetBytes":  hNondetBytes,
 		"vNondetString": hNondetString,
 		"vNondetArray":  hNondetArray,
+		"vNondetBytesC": func(in *Interp, th *Thread, a []Value, fn *ssa.Function) (Value, callStatus) {
+			v, st := hNondetBytes(in, th, a, fn)
+			b := v.(BytesV)
+			n := in.bv64(in.concretize(b.Len, in.concreteInt(a[0], "bound"), "vNondetBytesC length"))
+			b.Obj.n, b.Len, b.Cap = n, n, n
+			return b, st
+		},
+		"vNondetStringC": func(in *Interp, th *Thread, a []Value, fn *ssa.Function) (Value, callStatus) {
+			v, st := hNondetString(in, th, a, fn)
+			s := v.(StrV)
+			k := in.concretize(s.Len, in.concreteInt(a[0], "bound"), "vNondetStringC length")
+			s.Len, s.Max = in.bv64(k), k
+			return s, st
+		},
 		"vChoice":       hChoice,
 		"vAssume":       hAssume,
 		"vAssert":       hAssert,
@@ -47,6 +61,17 @@ func init() {
 		"vSymbolic":     func(in *Interp, th *Thread, a []Value, fn *ssa.Function) (Value, callStatus) { return Boolv{in.ts.True}, csDone },
 		"vOpaqueString": func(in *Interp, th *Thread, a []Value, fn *ssa.Function) (Value, callStatus) { return in.opaqueString("harness"), csDone },
 		"vExpectPanic":  hExpectPanic,
+		"vBytesEq":      iBytesEqual,
+		"vAnd": func(in *Interp, th *Thread, a []Value, fn *ssa.Function) (Value, callStatus) {
+			return Boolv{in.ts.And(a[0].(Boolv).T, a[1].(Boolv).T)}, csDone
+		},
+		"vOr": func(in *Interp, th *Thread, a []Value, fn *ssa.Function) (Value, callStatus) {
+			return Boolv{in.ts.Or(a[0].(Boolv).T, a[1].(Boolv).T)}, csDone
+		},
+		"vImplies": func(in *Interp, th *Thread, a []Value, fn *ssa.Function) (Value, callStatus) {
+			return Boolv{in.ts.Or(in.ts.Not(a[0].(Boolv).T), a[1].(Boolv).T)}, csDone
+		},
+		"vThorough":     func(in *Interp, th *Thread, a []Value, fn *ssa.Function) (Value, callStatus) { return Boolv{in.ts.Bool(in.cfg.Thorough)}, csDone },
 		"vGoroutines":   func(in *Interp, th *Thread, a []Value, fn *ssa.Function) (Value, callStatus) { return BVv{in.bv64(len(in.liveThreads()))}, csDone },
 		"vAllocBytes":   func(in *Interp, th *Thread, a []Value, fn *ssa.Function) (Value, callStatus) { return BVv{in.allocTotal}, csDone },
 		"vTypeName":     hTypeName,
